@@ -61,6 +61,8 @@ def run(tier):
     # mixed-type and non-string keys, deep nesting: implementation only (outside the model's string-keyed dicts)
     extra_probe(R)
     graph_probe(R, 60 if tier == 'quick' else 400)
+    from harness import probes
+    probes.discriminator_probe(R, {'mutation'})
     bad_model = P.check("C03_model", C_MODEL)
     if bad_model and not R.violations:
         for c in bad_model[:5]:
